@@ -263,12 +263,12 @@ func rewriteFile(p *packages.Package, rel string, f *ast.File, path string) erro
 			}
 		case *ast.CallExpr:
 			// R5: os.* in package stdlib (root) -> simfs.*
-			if rel == "stdlib" {
+			if rel == "stdlib" || rel == "repl/cli" {
 				if sel, ok := n.Fun.(*ast.SelectorExpr); ok {
 					if id, ok := sel.X.(*ast.Ident); ok {
 						if pn, ok := p.TypesInfo.Uses[id].(*types.PkgName); ok && pn.Imported().Path() == "os" {
 							switch sel.Sel.Name {
-							case "Stat", "ReadFile", "Open", "Getwd", "Lstat":
+							case "Stat", "ReadFile", "Open", "Getwd", "Lstat", "OpenFile":
 								fe.edits = append(fe.edits, edit{off: off(id.Pos()), del: len(id.Name), ins: "simfs"})
 								fe.needSimfs = true
 								stats["R5.fs_calls"]++
